@@ -23,6 +23,22 @@ package tokenizer
 //@   ensures  @C13 implies(err != nil && structured(err), fam(err) == 1)
 //@   ensures  @C11 implies(err != nil && causectx(err), isctx(err))
 
+// Constructors of the cursor and the reset used at the start of every run and at the pool boundary.
+//@ func NewPosition
+//@   ensures result.Line == line && result.Index == index && result.Column == 1 && result.LastNL == 0
+
+//@ func (*Tokenizer).Reset
+//@   ensures len(t.input) == 0 && ptr(t.input) == 0
+//@   ensures t.pos.Line == 1 && t.pos.Index == 0 && t.pos.Column == 1 && t.pos.LastNL == 0
+//@   ensures t.lineStart.Line == 0 && t.lineStart.Index == 0 && t.lineStart.Column == 0 && t.lineStart.LastNL == 0
+//@   ensures len(t.lineStarts) == 1 && t.lineStarts[0] == 0
+//@   ensures t.line == 0 && t.logger == nil && len(t.Comments) == 0 && ptr(t.Comments) == 0
+//@   ensures t.keywords == old(t.keywords) && t.dialect == old(t.dialect)
+
+// Position.Location is public API on a tokenizer between runs: the cursor invariant holds for it.
+//@ func (Position).Location
+//@   requires tz_ok(t)
+
 // The readers are entered only with at least one byte left (nextToken checks it).
 //@ func (*Tokenizer).readIdentifier
 //@   inherit
